@@ -76,3 +76,10 @@ check(
     "Trusts the explicit-loop reference filter in vf/props/c16.py; direction spacing restricted to exactly representable values as the property itself states.",
     "DESIGN.md section 5 C16",
 )
+check(
+    "C09",
+    "Hypothesis-generated datasets with bin-by-bin membership oracles for PTM4 (incl. constructed exact-boundary bins), bbox (index-lattice rectangles converted to limits, omitted limits, overlapping pairs), split / stats limits (cutoffs on and off nodes, reversed limits) and PTM5 (single variance-preserving factor)",
+    "Thousands (quick) / ~10^5 (thorough) cases across five facets; boundary-equality bins are constructed, not hoped for (every boundary case in evidence reports an exact hit). Exploration.",
+    "Uses the library's celerity() only on the wave-age boundary (within 0.3 %), an independent Newton celerity elsewhere; rectangles that overlap without sharing a bin are not generated.",
+    "DESIGN.md section 5 C09",
+)
